@@ -387,6 +387,27 @@ func (h *Hist) Step() {
 			}())
 		}
 	case 22:
+		if r.P(25) {
+			// a name the store does not hold: a documented no-op, which must stay one for every other
+			// collection (names from the universe, and neighbours in sort order of a live name)
+			n := h.Names[r.Intn(len(h.Names))]
+			if name != "" {
+				switch r.Intn(4) {
+				case 0:
+					n = name + "\x00"
+				case 1:
+					n = name[:len(name)/2]
+				case 2:
+					n = name + "~"
+				}
+			}
+			if _, live := e.M.Live.Colls[n]; !live {
+				h.Feat["removecoll-absent"] = true
+				e.Stats["removecollection-of-absent-name"]++
+				e.RemoveCollection(n)
+				return
+			}
+		}
 		if name != "" {
 			if len(e.M.Live.Colls[name].Items) > 0 {
 				h.Feat["removecoll-nonempty"] = true
